@@ -130,8 +130,22 @@ impl Segment {
     }
   }
 
+  /// Prepares the node for insertion in front of `next`.
+  ///
+  /// The node is written with the "removed" size until it is linked: a thread that still holds
+  /// this offset from an earlier life of the segment must not mistake the unlinked node for a
+  /// member of the list (and mark it, or unlink its stale successor through it).
   #[inline]
   fn update_next_node(&self, next: u32) {
+    self.as_ref().store(
+      encode_segment_node(REMOVED_SEGMENT_NODE, next),
+      Ordering::Release,
+    );
+  }
+
+  /// Makes the linked node visible as a segment of `data_size` bytes.
+  #[inline]
+  fn publish(&self, next: u32) {
     self
       .as_ref()
       .store(encode_segment_node(self.data_size, next), Ordering::Release);
@@ -715,6 +729,8 @@ impl Arena {
         Ordering::Relaxed,
       ) {
         Ok(_) => {
+          segment_node.publish(next_node_offset);
+
           #[cfg(feature = "tracing")]
           tracing::debug!(
             "create segment node ({} bytes) at {}, next segment {next_node_offset}",
@@ -776,6 +792,8 @@ impl Arena {
         Ordering::Relaxed,
       ) {
         Ok(_) => {
+          segment_node.publish(next_node_offset);
+
           #[cfg(feature = "tracing")]
           tracing::debug!(
             "create segment node ({} bytes) at {}, next segment {next_node_offset}",
@@ -1349,7 +1367,12 @@ impl Arena {
         }
         Err(current) => {
           // we could not unlink the node we have marked: undo the mark, nobody else will finish the removal.
-          next_node.store(next_node_val, Ordering::Release);
+          let _ = next_node.compare_exchange(
+            removed_next,
+            next_node_val,
+            Ordering::Release,
+            Ordering::Relaxed,
+          );
           let (node_size, _) = decode_segment_node(current);
           if node_size == REMOVED_SEGMENT_NODE {
             // the current node is marked as removed, wait other thread to make progress.
@@ -1475,7 +1498,12 @@ impl Arena {
         }
         Err(current) => {
           // we could not unlink the head we have marked: undo the mark, nobody else will finish the removal.
-          head.store(head_node_size_and_next_node_offset, Ordering::Release);
+          let _ = head.compare_exchange(
+            removed_head,
+            head_node_size_and_next_node_offset,
+            Ordering::Release,
+            Ordering::Relaxed,
+          );
           let (node_size, _) = decode_segment_node(current);
           if node_size == REMOVED_SEGMENT_NODE {
             // The current head is removed from the list, wait other thread to make progress.
@@ -1560,7 +1588,12 @@ impl Arena {
         }
         Err(current) => {
           // we could not unlink the head we have marked: undo the mark, nobody else will finish the removal.
-          head.store(head_node_size_and_next_node_offset, Ordering::Release);
+          let _ = head.compare_exchange(
+            removed_head,
+            head_node_size_and_next_node_offset,
+            Ordering::Release,
+            Ordering::Relaxed,
+          );
           let (node_size, _) = decode_segment_node(current);
           if node_size == REMOVED_SEGMENT_NODE {
             // The current head is removed from the list, wait other thread to make progress.
